@@ -825,6 +825,8 @@ class Interp:
         if isinstance(op, ast.Add):
             if isinstance(a, VStr) and isinstance(b, VStr): return VStr(S.concat([a.term, b.term]))
             if isinstance(a, VBytes) and isinstance(b, VBytes): return VBytes(S.concat([a.term, b.term]))
+            if isinstance(a, VBytes) and isinstance(b, VOpaque):
+                return VBytes(z3.Concat(a.term, self.ctx.fresh('opaque_bytes', StringSort)))      # known prefix, unknown rest
             if isinstance(a, VOpaque) and isinstance(b, (VStr, VOpaque)): return VOpaque('concat')
             if isinstance(b, VOpaque) and isinstance(a, (VStr, VOpaque)): return VOpaque('concat')
             if isinstance(a, VTuple) and isinstance(b, VTuple): return VTuple(a.items + b.items)
@@ -1083,6 +1085,10 @@ class Interp:
                 lo_c = self.concrete_int(lo) if lo else None
                 hi_c = self.concrete_int(hi) if hi else None
                 return VTuple(obj.items[lo_c:hi_c])
+            if isinstance(obj, VPyConst) and isinstance(obj.obj, (list, tuple)):
+                lo_c = self.concrete_int(lo) if lo else None
+                hi_c = self.concrete_int(hi) if hi else None
+                return VTuple([const_to_v(x) for x in obj.obj[lo_c:hi_c]])
             if isinstance(obj, VList):
                 return self.models.list_slice(self, obj, lo, hi)
             raise OutOfSubset('slice of %r' % (obj,))
@@ -1109,6 +1115,8 @@ class Interp:
             return ctx.dict_get(obj, k)
         if isinstance(obj, VPyConst) and isinstance(obj.obj, dict):
             return self.const_dict_lookup(obj.obj, idx)
+        if isinstance(obj, VPyConst) and isinstance(obj.obj, (list, tuple)) and isinstance(idx, VInt) and self.is_concrete_int(idx):
+            return const_to_v(obj.obj[self.concrete_int(idx)])
         if isinstance(obj, VNone):
             self.raise_py(TypeError)
         if isinstance(obj, VGen):
